@@ -22,8 +22,9 @@ conditions are decidable and syntactic (`existsSide`, `forAllSide` below; `Expr.
   the theorems are conditional on the evaluation returning, and `C01_forall_empty_error` shows it never does then;
 * the quantified variable occurs nowhere else (not in the `lᵢ`, not selected).
 
-Not proved (left to the executable model + search): a conjunct to the RIGHT of a quantifier, more than one quantifier,
-quantifiers below `or_` (F-C01-8 shows that is wrong in general), nested quantifiers.
+`C01_quant_tree_sound_complete_partial` extends the shape to and-TREES with any number of quantifiers, also to the left
+of other conjuncts (`Expr.Qt`). Not proved (left to the executable model + search): a conjunct evaluated AFTER a
+`for_all`, quantifiers below `or_` (F-C01-8 shows that is wrong in general), nested quantifiers.
 -/
 namespace KrroodVerif.Eql
 
@@ -42,6 +43,30 @@ theorem C01_quant_sound_complete_partial (w : World) (q : SQuery) (c : SExpr)
   obtain ⟨sel, cond⟩ := q
   simp only at hc; subst hc
   refine sound_complete_Ql w sel c hQ hsel (hasDup_false_iff.mp hms) ?_ hnd hne hlit h1 h2
+  intro v hv
+  have := List.all_eq_true.mp hsq v hv
+  simpa using this
+
+/- Intended statement (full strength): the set equality for EVERY tree-shaped query with quantifiers. False for the code
+   as it is (F-C01-5/6/7/8/11). Proved: and-trees (`Expr.Qt`). Missing: a conjunct evaluated after a `for_all`, quantifiers
+   below `or_`/inside quantifiers, `exists` with a free variable that nothing binds before it. -/
+/-- **C01_quant_tree_sound_complete_partial.** The same for and-TREES (`Expr.Qt`, `Model/EqlQuantFrag.lean`): any nesting
+of `and_` over quantifier-free conditions of the cover fragment and ANY NUMBER of quantifiers `exists(y, φ)` /
+`for_all(y, φ)` / `not_` of them, quantifiers also to the LEFT of other conjuncts (an `exists` binds its variable for the
+conjuncts after it, which however must not use it; a later `exists` may rely on variables that an earlier conjunct —
+or an earlier `exists` body — binds), provided nothing is evaluated after a `for_all`. Contains the chain fragment
+(`ql_qt`). -/
+theorem C01_quant_tree_sound_complete_partial (w : World) (q : SQuery) (c : SExpr)
+    (hc : q.cond = some c) (hQ : (build c).Qt [] [] = true)
+    (hsel : selF1 q.sel = true) (hms : trigMultiSel q = false) (hsq : selNoQuant q.sel (build c) = true)
+    (hnd : ∀ v, (w.dom v).Nodup) (hne : ∀ v ∈ q.vars, w.dom v ≠ [])
+    (hlit : LitNodup (build c))
+    {rows rows' : List (List Val)}
+    (h1 : evalQuery w q.toQuery = .ok rows) (h2 : solutions w q = .ok rows') :
+    ∀ r, r ∈ rows ↔ r ∈ rows' := by
+  obtain ⟨sel, cond⟩ := q
+  simp only at hc; subst hc
+  refine sound_complete_Qt w sel c hQ hsel (hasDup_false_iff.mp hms) ?_ hnd hne hlit h1 h2
   intro v hv
   have := List.all_eq_true.mp hsq v hv
   simpa using this
@@ -317,16 +342,32 @@ theorem C01_quant_need_shape :
     sameAnswers (evalQuery cex7W cex8Q.toQuery) (solutions cex7W cex8Q) = false := by
   decide
 
-/-- **C01_quant_need_last** (test of the fragment's boundary, NOT a finding). A conjunct to the RIGHT of a quantifier is
-rejected by `Expr.Ql`: nothing is proved about it (the row that `for_all` passes on lists the candidate's keys twice, the
-one `exists` passes on also binds `y`); the correspondence check still compares such queries with the specification. -/
+/-- non-vacuity of the TREE theorem (test): `and_(exists(y, y.a > 1), x.a >= 1, exists(u, u.a < x.a))` — a quantifier to
+the LEFT of a conjunct and two quantifiers, the second relying on `x`, which the middle conjunct binds; outside the chain
+fragment `Expr.Ql`. `x ∈ {P1, P2}` (the engine returns `P2` twice, once per witness `u`). -/
+def qnvT : SQuery :=
+  ⟨[.var 0], some (.and (.and (.exists_ 3 (.cmp .gt (cexAttrA 3) (.lit 103 (.int 1)))) qnvL)
+    (.exists_ 4 (.cmp .lt (cexAttrA 4) (cexAttrA 0))))⟩
+
+example : (∀ r, r ∈ [[Val.obj 1], [.obj 2], [.obj 2]] ↔ r ∈ [[Val.obj 1], [.obj 2]]) ∧
+    (qnvT.cond.map fun c => (build c).Ql [] []) = some false :=
+  ⟨C01_quant_tree_sound_complete_partial qnvW qnvT _ rfl (by decide) (by decide) (by decide) (by decide)
+    (domsNodup_of_B (by decide)) (by decide) (by decide) (by decide) (by decide), by decide⟩
+
+/-- **C01_quant_need_last** (test of the fragment's boundary, NOT a finding). A conjunct to the RIGHT of a `for_all` is
+rejected by `Expr.Qt`: nothing is proved about it (the row that `for_all` passes on lists the candidate's keys twice);
+a quantified variable used by a later conjunct is rejected as well. The correspondence check still compares such queries
+with the specification. -/
 theorem C01_quant_need_last :
-    (build (.and (.exists_ 3 (.cmp .gt (cexAttrA 3) (.lit 101 (.int 1)))) qnvL)).Ql [] [] = false := by
+    (build (.and (.forAll 3 (.cmp .gt (cexAttrA 3) (.lit 101 (.int 0)))) qnvL)).Qt [] [] = false ∧
+    (build (.and (.exists_ 3 (.cmp .gt (cexAttrA 3) (.lit 101 (.int 1)))) qnvL)).Qt [] [] = true ∧
+    (build (.and (.exists_ 3 (.cmp .gt (cexAttrA 3) (.lit 101 (.int 1))))
+      (.cmp .ge (cexAttrA 0) (cexAttrA 3)))).Qt [] [] = false := by
   decide
 
 /-- **C01_quantProved_sound_complete.** The decidable predicate `quantProved w q` (`Model/EqlQuantFrag.lean`; the driver
 evaluates it on every case and then does not offer F-C01-5 / F-C01-7 / F-C01-11 as an excuse: `triggersQ`) implies every
-hypothesis of `C01_quant_sound_complete_partial`: on such a query the evaluation returns exactly the specified rows. -/
+hypothesis of `C01_quant_tree_sound_complete_partial`: on such a query the evaluation returns exactly the specified rows. -/
 theorem C01_quantProved_sound_complete (w : World) (q : SQuery) (h : quantProved w q = true)
     {rows rows' : List (List Val)}
     (h1 : evalQuery w q.toQuery = .ok rows) (h2 : solutions w q = .ok rows') :
@@ -337,8 +378,8 @@ theorem C01_quantProved_sound_complete (w : World) (q : SQuery) (h : quantProved
   | some c =>
     rw [hc] at h
     simp only [Bool.and_eq_true, Bool.not_eq_true'] at h
-    obtain ⟨⟨⟨⟨⟨⟨hQ, hsel⟩, hms⟩, hsq⟩, hnd⟩, hne⟩, hlit⟩ := h
-    refine C01_quant_sound_complete_partial w q c hc hQ ?_ hms hsq ?_ ?_ ?_ h1 h2
+    obtain ⟨⟨⟨⟨⟨⟨⟨hQ, _⟩, hsel⟩, hms⟩, hsq⟩, hnd⟩, hne⟩, hlit⟩ := h
+    refine C01_quant_tree_sound_complete_partial w q c hc hQ ?_ hms hsq ?_ ?_ ?_ h1 h2
     · simpa [selF1] using hsel
     · apply domsNodup_of_B
       simp only [domsNodupB, List.all_eq_true, decide_eq_true_eq]
@@ -353,6 +394,7 @@ theorem C01_quantProved_sound_complete (w : World) (q : SQuery) (h : quantProved
 findings do not -/
 example : quantProved qnvW qnvE = true ∧ quantProved qnvW qnvA = true ∧ quantProved qnvW qnvAc = true ∧
     quantProved qnvW qnvNE = true ∧ quantProved qnvW qnvNA = true ∧ quantProved qnvW qnvE0 = true ∧
+    quantProved qnvW qnvT = true ∧ quantProved c02nvW c02nvQ = false ∧
     quantProved cex5W cex5Q = false ∧ quantProved cex7W cex7Q = false ∧ quantProved cex7W cex8Q = false ∧
     quantProved cex11W cex11Q = false ∧
     ("F-C01-5" ∈ triggers qnvW qnvE ∧ "F-C01-5" ∉ triggersQ qnvW qnvE) ∧
